@@ -33,6 +33,7 @@ func NewLens[S, A any](t hseq.Type[S]) Lens[S, A] {
 
 	if ft.String() == fv.String() && ft.AssignableTo(fv) {
 		assertContainer[S]()
+		assertInline(t)
 		return &lens[S, A]{t}
 	}
 
@@ -318,4 +319,39 @@ func ForProduct9[T, A, B, C, D, E, F, G, H, I any](attr ...string) (
 		NewLens[T, H],
 		NewLens[T, I],
 	)
+}
+
+// assertInline panics when the field is reached through an embedded pointer.
+// Such a field does not live inside S: its offsets are relative to the pointee,
+// adding them to the address of S reads and writes memory of other fields.
+func assertInline[S any](t hseq.Type[S]) {
+	id := t.ID
+	found, indirect := viaPointer(reflect.TypeOf(new(S)).Elem(), &id, false)
+	if found && indirect {
+		panic(fmt.Errorf("invalid type: field %s is reached through an embedded pointer, optics cannot focus it", t.Name))
+	}
+}
+
+// viaPointer walks the fields of cat in the order hseq lists them, id counts
+// down to the wanted entry. It reports whether the entry has been found and
+// whether an embedded pointer has been crossed on the way to it.
+func viaPointer(cat reflect.Type, id *int, indirect bool) (bool, bool) {
+	for i := 0; i < cat.NumField(); i++ {
+		if *id == 0 {
+			return true, indirect
+		}
+		*id--
+
+		f := cat.Field(i)
+		ft, ptr := f.Type, false
+		if ft.Kind() == reflect.Ptr {
+			ft, ptr = ft.Elem(), true
+		}
+		if f.Anonymous && ft.Kind() == reflect.Struct {
+			if found, via := viaPointer(ft, id, indirect || ptr); found {
+				return found, via
+			}
+		}
+	}
+	return false, false
 }
